@@ -74,6 +74,26 @@ func (pnf *PageNumberFinder) FindPagination(root *html.Node, pageURL *nurl.URL) 
 		return
 	}
 
+	// The page parameter detector may insert the current document as one of the
+	// pages. It spells that URL differently than strPageURL (escaped, and without
+	// user info), so compare the normalized forms to recognize it.
+	urlNoUser := url
+	urlNoUser.User = nil
+	strPageURLNoUser := stringutil.UnescapedString(&urlNoUser)
+	isCurrentPage := func(pageInfoURL string) bool {
+		if pageInfoURL == strPageURL {
+			return true
+		}
+
+		parsed, err := nurl.Parse(pageInfoURL)
+		if err != nil {
+			return false
+		}
+
+		parsed.User = nil
+		return stringutil.UnescapedString(parsed) == strPageURLNoUser
+	}
+
 	pagination.PrevPage = ""
 	pagination.NextPage = paramInfo.NextPagingURL
 
@@ -83,7 +103,7 @@ func (pnf *PageNumberFinder) FindPagination(root *html.Node, pageURL *nurl.URL) 
 	if pagination.NextPage == "" && nPageInfo > 0 {
 		for i := nPageInfo - 1; i >= 0; i-- {
 			currentInfo := paramInfo.AllPageInfo[i]
-			if currentInfo.URL != strPageURL {
+			if !isCurrentPage(currentInfo.URL) {
 				pagination.PrevPage = currentInfo.URL
 				break
 			}
@@ -104,7 +124,7 @@ func (pnf *PageNumberFinder) FindPagination(root *html.Node, pageURL *nurl.URL) 
 
 		for i := nextPageIdx - 1; i >= 0; i-- {
 			currentURL := paramInfo.AllPageInfo[i].URL
-			if currentURL == "" || currentURL != strPageURL {
+			if currentURL == "" || !isCurrentPage(currentURL) {
 				pagination.PrevPage = currentURL
 				break
 			}
